@@ -16,6 +16,7 @@ type EnumSpec struct {
 	At     int `json:"at"`
 	Pacing int `json:"pacing"`
 	When   int `json:"when"`
+	Stall  int `json:"stall"`
 }
 
 // CaseSpec identifies one case: a pure function of these fields and the code.
@@ -25,6 +26,7 @@ type CaseSpec struct {
 	Seed    uint64              `json:"seed"`
 	Enum    *EnumSpec           `json:"enum,omitempty"`
 	Forced  []int               `json:"forced_units,omitempty"`
+	Zone    int                 `json:"zone"` // index into simZones: the process's local time zone
 	Streams map[string][]uint64 `json:"streams,omitempty"` // replay: recorded tape
 }
 
@@ -149,6 +151,7 @@ func genFaultScenarioEnum(t *Tape, o *GenOpts, prop string, e *EnumSpec) *Scenar
 		p.CancelWhen = e.When
 	}
 	p.BlockedAtStop = e.When%2 == 1 && kind != stopCancel
+	p.StallAfterStop = e.Stall == 1
 	sc.Attempts = []AttemptPlan{p, cleanAttempt(cs, t.S("policy"))}
 	return sc
 }
@@ -233,6 +236,7 @@ func collectStats(res *CaseResult, r *Run) {
 
 // RunCase executes one case and judges it with the property's oracles.
 func RunCase(t *testing.T, spec CaseSpec) *CaseResult {
+	setZone(spec.Zone)
 	tape := spec.tape()
 	res := &CaseResult{Spec: spec, Tape: tape}
 	sc := buildScenario(&spec, tape)
